@@ -16,10 +16,10 @@ package main
 
 import (
 	"bytes"
-	"regexp"
 	"crypto/rand"
 	"fmt"
 	"os"
+	"regexp"
 	"time"
 
 	bolt "go.etcd.io/bbolt"
@@ -213,8 +213,8 @@ func (sc cscenario) build(env *cEnv, ks interface {
 			rnd.Hook = nil
 			var fails []string
 			failf := func(format string, a ...interface{}) { fails = append(fails, fmt.Sprintf(format, a...)) }
-			tokenOf := map[string]string{}  // client/value -> token (consistent requests)
-			valueOf := map[string]string{}  // client/token -> value (all issued tokens)
+			tokenOf := map[string]string{} // client/value -> token (consistent requests)
+			valueOf := map[string]string{} // client/token -> value (all issued tokens)
 			for ti, rs := range results {
 				for _, r := range rs {
 					if r.req.Kind == "detok-first" {
